@@ -333,8 +333,44 @@ func (pi *pkgInstr) touchStmt(fe *fileEdits, s ast.Stmt) {
 	var order []*types.Var
 	fieldW := map[string]bool{}
 	fieldLabel := map[string]string{}
+	containerNote := map[string]string{}
 	var fieldOrder []string
 	for _, n := range direct {
+		if !pi.o.NoFieldNotes && pi.pkg != nil && pi.pkg.Name() == "scope" {
+			// element writes into ECAL containers (map[interface{}]interface{},
+			// []interface{}) held by a variable scope: the container itself is the
+			// tracked location (its header pointer), the scope's lock must order them
+			if as, ok := n.(*ast.AssignStmt); ok {
+				for _, l := range as.Lhs {
+					ix, ok := l.(*ast.IndexExpr)
+					if !ok {
+						continue
+					}
+					id, ok := ix.X.(*ast.Ident)
+					if !ok {
+						continue
+					}
+					if obj := pi.info.Uses[id]; obj == nil || (obj.Pos() >= s.Pos() && obj.Pos() < s.End()) {
+						continue
+					}
+					tv, ok := pi.info.Types[ix.X]
+					if !ok {
+						continue
+					}
+					ts := tv.Type.String()
+					if ts != "map[interface{}]interface{}" && ts != "[]interface{}" {
+						continue
+					}
+					txt := "(" + id.Name + ")"
+					if _, seen := fieldW[txt]; !seen {
+						fieldOrder = append(fieldOrder, txt)
+					}
+					fieldW[txt] = true
+					fieldLabel[txt] = "ECAL container element"
+					containerNote[txt] = id.Name
+				}
+			}
+		}
 		if !pi.o.NoFieldNotes {
 			written := map[*ast.SelectorExpr]bool{}
 			fieldWrites(n, func(se *ast.SelectorExpr) { written[se] = true })
@@ -411,7 +447,11 @@ func (pi *pkgInstr) touchStmt(fe *fileEdits, s ast.Stmt) {
 			pi.sum.TouchPoints++
 		}
 		for _, txt := range fieldOrder {
-			fmt.Fprintf(&b, "vsched.Access(func() interface{} { return &%s }, %v, %q); ", txt, fieldW[txt], fieldLabel[txt])
+			if name, ok := containerNote[txt]; ok {
+				fmt.Fprintf(&b, "vsched.Access(func() interface{} { return %s }, true, %q); ", name, fieldLabel[txt])
+			} else {
+				fmt.Fprintf(&b, "vsched.Access(func() interface{} { return &%s }, %v, %q); ", txt, fieldW[txt], fieldLabel[txt])
+			}
 			pi.sum.FieldNotes++
 		}
 		fe.insert(pi.off(s.Pos()), b.String())
